@@ -26,6 +26,11 @@ def leaf(x=0):
     return x * 2
 
 
+def leaf2(x=0):
+    """a different task with the same parameter name: leaf2(x) and leaf(x) are different calls"""
+    return x * 3 + 1
+
+
 def scripted(script, fail_until=0, tag=""):
     """Executes the wf operations in order, records what it observed; raises RetryError on attempts <= fail_until."""
     from pynenc.exceptions import RetryError
@@ -47,8 +52,9 @@ def scripted(script, fail_until=0, tag=""):
         elif op == "uuid":
             seen.append(["uuid", me.wf.uuid()])
         else:
-            sub = me.wf.execute_task(_task("leaf"), op[1])
-            seen.append(["sub", op[1], sub.invocation_id])
+            which = "leaf" if op[0] == "sub" else "leaf2"
+            sub = me.wf.execute_task(_task(which), op[1])
+            seen.append([op[0], op[1], sub.invocation_id, sub.task.task_id.key.rsplit(".", 1)[-1]])
     if n <= fail_until:
         raise RetryError(f"attempt {n}")
     return len(seen)
